@@ -27,6 +27,7 @@ import (
 	"io"
 	"log/slog"
 	"sort"
+	"strings"
 	"sync"
 	"sync/atomic"
 	"testing"
@@ -60,6 +61,7 @@ type c20Round struct {
 }
 
 type c20Plan struct {
+	Label  string     `json:"label,omitempty"` // matrix leg: schedule point / kind
 	Router string     `json:"router"`
 	Keys   []string   `json:"keys"`
 	Pre    []c20Op    `json:"pre"`
@@ -437,6 +439,7 @@ func TestVerifC20Converge(t *testing.T) {
 		}
 	}
 	wg.Wait()
+	r.Exhaustive(false) // sampled plans; the single-change matrix is the exhaustive leg
 	r.Floor("cases_with_interruption", 10)
 	r.Floor("cases_with_gap_change", 10)
 	r.Floor("cases_converged_exactly", 10)
@@ -449,8 +452,12 @@ func c20RunCase(t *testing.T, r *verifkit.Run, cli *clientv3.Client, ci int, rou
 	}
 	rng := r.Rand(idx)
 	plan, keys := c20GenPlan(rng, router, ci, r.Thorough())
-	keys = append(keys, c20Sentinel) // last index = sentinel
-	ns := fmt.Sprintf("c20/%d/%s/%d/", r.Seed, router, ci)
+	c20Execute(t, r, cli, fmt.Sprintf("c20/%d/%s/%d/", r.Seed, router, ci), ci, router, plan, keys, sampled)
+}
+
+// c20Execute runs one plan against a fresh router in its own key namespace and judges it.
+func c20Execute(t *testing.T, r *verifkit.Run, cli *clientv3.Client, ns string, ci int, router string, plan c20Plan, keys []c20Key, sampled *atomic.Int64) {
+	keys = append(append([]c20Key{}, keys...), c20Sentinel) // last index = sentinel
 	ctx, cancel := context.WithCancel(context.Background())
 	defer cancel()
 	c := &c20Case{plan: plan, keys: keys, router: router, ctx: ctx,
@@ -731,8 +738,124 @@ func c20RunCase(t *testing.T, r *verifkit.Run, cli *clientv3.Client, ci int, rou
 				router, first.Key, first.Etcd, first.Router, first.Last.Kind, first.Last.Val, first.Last.Phase, first.Last.Round), replay)
 		}
 	}
-	r.Case(verifkit.Hash(router, plan), (hasInt || hasGap) && hasPut && hasDel)
+	nontrivial := (hasInt || hasGap) && hasPut && hasDel
+	if plan.Label != "" {
+		nontrivial = !strings.HasPrefix(plan.Label, "pre/")
+	}
+	r.Case(verifkit.Hash(router, plan), nontrivial)
 	if sampled.Add(1) <= 3 {
 		r.Sample(map[string]any{"router": router, "plan": plan, "converged": len(divs) == 0})
 	}
+}
+
+// ---------------------------------------------------------------------------
+// leg matrix: every (schedule point x kind of change) once, per router
+// ---------------------------------------------------------------------------
+
+// c20MatrixPlans enumerates single-change plans: one lease change of each kind at each schedule point.
+func c20MatrixPlans(router string) ([]c20Plan, []string, []c20Key) {
+	pool := c20PartitionPool
+	if router == "group" {
+		pool = c20GroupPool
+	}
+	keys := []c20Key{pool[0], pool[1], pool[2]}
+	names := []string{keys[0].name(router), keys[1].name(router), keys[2].name(router)}
+	var plans []c20Plan
+	var labels []string
+	seq := 0
+	mk := func(phase string, round int, kind string) (c20Op, c20Op) {
+		// base: key 0 exists before the router starts (lease-attached when the change is a revoke)
+		seq++
+		base := c20Op{Phase: "pre", Kind: "put", Key: 0, Name: names[0], Val: fmt.Sprintf("broker-0#m%d.base", seq)}
+		ch := c20Op{Phase: phase, Round: round, Key: 0, Name: names[0]}
+		switch kind {
+		case "put_new_key":
+			ch.Kind, ch.Key, ch.Name, ch.Val = "put", 1, names[1], fmt.Sprintf("broker-1#m%d.new", seq)
+		case "put_overwrite":
+			ch.Kind, ch.Val = "put", fmt.Sprintf("broker-2#m%d.over", seq)
+		case "put_leased_overwrite":
+			ch.Kind, ch.Val = "put_leased", fmt.Sprintf("broker-3#m%d.leased", seq)
+		case "delete":
+			ch.Kind = "delete"
+		case "revoke":
+			base.Kind = "put_leased"
+			ch.Kind = "delete" // executed as a lease revoke
+		}
+		return base, ch
+	}
+	kinds := []string{"put_new_key", "put_overwrite", "put_leased_overwrite", "delete", "revoke"}
+	modes := []string{"close", "close_after_delivery", "error_then_close"}
+	for _, kind := range kinds {
+		// before construction
+		base, ch := mk("pre", 0, kind)
+		plans = append(plans, c20Plan{Router: router, Keys: names, Pre: []c20Op{base, ch}, Rounds: []c20Round{{}}})
+		labels = append(labels, "pre/"+kind)
+		// start-up: between the first load and the first Watch
+		base, ch = mk("gap", 0, kind)
+		plans = append(plans, c20Plan{Router: router, Keys: names, Pre: []c20Op{base}, Rounds: []c20Round{{Gap: []c20Op{ch}}}})
+		labels = append(labels, "gap@startup/"+kind)
+		// watch live
+		base, ch = mk("live", 0, kind)
+		plans = append(plans, c20Plan{Router: router, Keys: names, Pre: []c20Op{base}, Rounds: []c20Round{{Live: []c20Op{ch}}}})
+		labels = append(labels, "live/"+kind)
+		for _, m := range modes {
+			// live change, then interruption (delivered or not), nothing else
+			base, ch = mk("live", 0, kind)
+			plans = append(plans, c20Plan{Router: router, Keys: names, Pre: []c20Op{base}, Rounds: []c20Round{{Live: []c20Op{ch}, Interrupt: m}, {}}})
+			labels = append(labels, "live+"+m+"/"+kind)
+			// during the reconnect pause
+			base, ch = mk("pause", 0, kind)
+			plans = append(plans, c20Plan{Router: router, Keys: names, Pre: []c20Op{base}, Rounds: []c20Round{{Interrupt: m, Pause: []c20Op{ch}}, {}}})
+			labels = append(labels, "pause+"+m+"/"+kind)
+		}
+		// reconnect: between the reload and the second Watch
+		base, ch = mk("gap", 1, kind)
+		plans = append(plans, c20Plan{Router: router, Keys: names, Pre: []c20Op{base}, Rounds: []c20Round{{Interrupt: "close"}, {Gap: []c20Op{ch}}}})
+		labels = append(labels, "gap@reconnect/"+kind)
+		// after the reconnect, watch live again
+		base, ch = mk("live", 1, kind)
+		plans = append(plans, c20Plan{Router: router, Keys: names, Pre: []c20Op{base}, Rounds: []c20Round{{Interrupt: "close"}, {Live: []c20Op{ch}}}})
+		labels = append(labels, "live@reconnected/"+kind)
+		// change in the start-up window, repaired by a later reload
+		base, ch = mk("gap", 0, kind)
+		plans = append(plans, c20Plan{Router: router, Keys: names, Pre: []c20Op{base}, Rounds: []c20Round{{Gap: []c20Op{ch}, Interrupt: "close"}, {}}})
+		labels = append(labels, "gap@startup+reload/"+kind)
+	}
+	return plans, labels, keys
+}
+
+func TestVerifC20Matrix(t *testing.T) {
+	r := verifkit.Start(t, "C20", "matrix")
+	defer r.Finish("exhaustive single-change matrix, independent of the seed: for each router, one lease change of each kind (put of a new key, overwrite, lease-attached overwrite, delete, lease revoke) at each schedule point (before construction; between the first load and the first Watch; watch live; live then interruption in each of the 3 interruption modes; during the reconnect pause in each mode; between the reload and the second Watch; live after the reconnect; start-up window followed by a reload); same sentinel and comparison as leg converge; non-trivial = every plan except the 'before construction' row",
+		"embedded single-node etcd; one key namespace per plan")
+	endpoints := testutil.StartEmbeddedEtcd(t)
+	cli, err := clientv3.New(clientv3.Config{Endpoints: endpoints, DialTimeout: 5 * time.Second})
+	if err != nil {
+		t.Fatalf("etcd client: %v", err)
+	}
+	defer cli.Close()
+	sem := make(chan struct{}, 16)
+	var wg sync.WaitGroup
+	var sampled atomic.Int64
+	total := 0
+	for _, router := range []string{"partition", "group"} {
+		plans, labels, keys := c20MatrixPlans(router)
+		for i := range plans {
+			total++
+			wg.Add(1)
+			sem <- struct{}{}
+			go func(i int, router string, plan c20Plan, label string) {
+				defer wg.Done()
+				defer func() { <-sem }()
+				plan.Label = label
+				r.Seen("matrix_cells", router+"/"+label)
+				c20Execute(t, r, cli, fmt.Sprintf("c20m/%s/%d/", router, i), 100000+i, router, plan, keys, &sampled)
+			}(i, router, plans[i], labels[i])
+		}
+	}
+	wg.Wait()
+	r.Note("matrix_plans", total)
+	r.Exhaustive(true)
+	r.Floor("matrix_cells", int64(total))
+	r.Floor("cases_converged_exactly", 20)
 }
